@@ -10,6 +10,7 @@ import (
 
 	dragonboat "github.com/lni/dragonboat/v4"
 	"github.com/lni/dragonboat/v4/config"
+	"github.com/lni/dragonboat/v4/internal/transport"
 	"github.com/lni/dragonboat/v4/internal/verifhook"
 	pb "github.com/lni/dragonboat/v4/raftpb"
 	"github.com/lni/dragonboat/v4/verifh/cluster"
@@ -53,7 +54,7 @@ func (t *tickClock) ctr(rep uint64) *int64 {
 func (t *tickClock) get(rep uint64) int64 { return atomic.LoadInt64(t.ctr(rep)) }
 
 func progressMode(r *common.Run, sk *sink) {
-	r.SetRule("each case = real NodeHosts, one shard of 3 or 5 voters plus (PRNG) a non-voting replica and a witness, PRNG PreVote/CheckQuorum/Quiesce/snapshot frequency/state machine kind; a fault prefix of 6-14 actions (leader or follower isolation with or without failing connections, one-way cuts, message loss, power-loss crash + restart, leader transfer, idle period long enough to quiesce, lag beyond the compacted log so that a snapshot is needed, snapshot streams interrupted), a no-quorum probe, then a fault-free period; verdicts P1-P4 are taken on the number of ticks each replica processed (NodeTick hook) and on dragonboat's tick based request deadlines; wall clocks are watchdogs only (inconclusive); non-trivial = at least one leader change and one crash or snapshot-needing lag in the prefix and all four verdicts were evaluated; distinct by hash of the fault prefix and configuration")
+	r.SetRule("each case = real NodeHosts, one shard of 3 or 5 voters plus (PRNG) a non-voting replica and a witness, PRNG PreVote/CheckQuorum/Quiesce/snapshot frequency/state machine kind; a fault prefix of 6-14 actions (leader or follower isolation with or without failing connections, one-way cuts, message loss, power-loss crash + restart, leader transfer, idle period long enough to quiesce, lag beyond the compacted log so that a snapshot is needed, snapshot streams interrupted), transport send queues that give up idle connections after 300-900 ms, a no-quorum probe (on a quiesced replica when Quiesce is on), then a fault-free period; verdicts P1-P4 are taken on the number of ticks each replica processed (NodeTick hook) and on dragonboat's tick based request deadlines; wall clocks are watchdogs only (inconclusive); non-trivial = at least one leader change and one crash or snapshot-needing lag in the prefix and all four verdicts were evaluated; distinct by hash of the fault prefix and configuration")
 	r.Assume("bounded progress instead of 'eventually': leader within 40 election timeouts of ticks after healing, requests within 3000 ticks of the replica they were submitted to (retrying Dropped/Rejected/Timeout results), catch-up within 200 election timeouts of ticks; these bounds are far above what the protocol needs (an election needs 1-2 timeouts, a snapshot status is delayed by at most 10 ticks)")
 	n := r.Pick(8, 160)
 	for _, c := range r.MyCases(n) {
@@ -64,6 +65,11 @@ func progressMode(r *common.Run, sk *sink) {
 	// sending and persisting an entry
 	for _, c := range r.MyCases(r.Pick(8, 80)) {
 		runWitnessCrash(r, sk, c, r.Rand("witness-crash", c), r.SubSeed("witness-crash-seed", c))
+		r.Flush()
+	}
+	// directed prefix: a quiescent shard loses its leader
+	for _, c := range r.MyCases(r.Pick(8, 80)) {
+		runQuiescedLeaderLoss(r, sk, c, r.Rand("qll", c), r.SubSeed("qll-seed", c))
 		r.Flush()
 	}
 	// directed prefix: a streamed snapshot, then snapshot save / recover jobs of the same replica
@@ -102,6 +108,10 @@ func runProgress(r *common.Run, sk *sink, caseNo int, rng *rand.Rand, seed int64
 		}
 	})
 	defer verifhook.SetPoint(verifhook.NodeTick, func(uint64, uint64) {})
+	// links that carry nothing for a while (follower to follower, quiesced shards) give up their
+	// connection and have to come back when needed: 300-900 ms here instead of one minute
+	idle := time.Duration(300+rng.Intn(600)) * time.Millisecond
+	defer transport.VerifSetIdleTimeout(transport.VerifSetIdleTimeout(idle))
 	if err := c.StartAll(); err != nil {
 		r.Inconclusive(fmt.Sprintf("progress case %d: start failed: %v", caseNo, err))
 		return
@@ -285,6 +295,12 @@ func runProgress(r *common.Run, sk *sink, caseNo int, rng *rand.Rand, seed int64
 	// ---- P1: no quorum ----
 	atomic.StoreInt32(&pause, 1)
 	time.Sleep(50 * time.Millisecond)
+	if quiesce {
+		// long enough for the shard to go quiescent (10 election timeouts without activity): the
+		// probe below is then submitted to a quiesced replica whose peers have become unreachable
+		time.Sleep(1600 * time.Millisecond)
+		prefix = append(prefix, "idle 1.6s before the no-quorum probe")
+	}
 	probe := rng.Intn(voters)
 	for down[probe] {
 		probe = (probe + 1) % voters
@@ -365,7 +381,17 @@ func runProgress(r *common.Run, sk *sink, caseNo int, rng *rand.Rand, seed int64
 	wit := func() map[string]interface{} {
 		return map[string]interface{}{"case": caseNo, "config": desc, "prefix": prefix}
 	}
-	// P2
+	// P2. A quiescent shard exchanges no heartbeats and elects nobody until it is asked to do
+	// something: one request per voter wakes it up first (their outcome is not judged).
+	if quiesce {
+		for _, hi := range voterSet {
+			if nh := c.Hosts[hi].NodeHost(); nh != nil {
+				if rs, err := nh.Propose(nh.GetNoOPSession(shardID), cluster.MakeCmd(1, cluster.NewID()), time.Second); err == nil {
+					go func() { <-rs.ResultC(); rs.Release() }()
+				}
+			}
+		}
+	}
 	gotLeader := false
 	wall := time.Now()
 	for minTicks(voterSet, base) < electTicks && time.Since(wall) < 120*time.Second {
@@ -933,5 +959,132 @@ func runStreamThenSnapshot(r *common.Run, sk *sink, caseNo int, rng *rand.Rand, 
 	}
 	if r.WantSample() {
 		r.Sample(map[string]interface{}{"stream_then_snapshot_case": caseNo, "config": desc, "proposals": atomic.LoadInt64(&done)})
+	}
+}
+
+// runQuiescedLeaderLoss: directed prefix for Quiesce. The shard goes quiescent
+// (no heartbeats are exchanged any more), then the host of its leader loses
+// power and stays down. Two of three voters are up and connected. Requests
+// submitted afterwards through one of them - only proposals in half of the
+// cases, as a write-only client would - must complete within requestTicks
+// ticks of that replica.
+func runQuiescedLeaderLoss(r *common.Run, sk *sink, caseNo int, rng *rand.Rand, seed int64) {
+	preVote, checkQuorum := rng.Intn(2) == 0, rng.Intn(2) == 0
+	onlyProposals := rng.Intn(2) == 0
+	store := cluster.Pebble
+	if rng.Intn(3) == 0 {
+		store = cluster.Tan
+	}
+	desc := fmt.Sprintf("voters=3 quiesce=true prevote=%v checkquorum=%v store=%s only_proposals=%v", preVote, checkQuorum, store, onlyProposals)
+	fmt.Printf("quiesced-leader-loss case %d %s\n", caseNo, desc)
+	c := cluster.NewCluster(cluster.Options{Hosts: 3, Seed: seed, RTTMs: 10, Store: store,
+		SMOpt: func(uint64, uint64) cluster.SMOptions {
+			return cluster.SMOptions{Kind: cluster.Regular, RecordApply: true}
+		}}, sk)
+	const shardID = 1
+	clock := &tickClock{m: map[uint64]*int64{}}
+	verifhook.SetPoint(verifhook.NodeTick, func(s, rep uint64) {
+		if s == shardID {
+			atomic.AddInt64(clock.ctr(rep), 1)
+		}
+	})
+	defer verifhook.SetPoint(verifhook.NodeTick, func(uint64, uint64) {})
+	if err := c.StartAll(); err != nil {
+		r.Inconclusive(fmt.Sprintf("quiesced-leader-loss case %d: start failed: %v", caseNo, err))
+		return
+	}
+	defer c.StopAll()
+	members := c.Members(3)
+	replicas := map[uint64]int{1: 0, 2: 1, 3: 2}
+	for i := 0; i < 3; i++ {
+		cfg := cluster.ShardConfig(shardID, uint64(i+1))
+		cfg.PreVote, cfg.CheckQuorum, cfg.Quiesce = preVote, checkQuorum, true
+		if err := c.Hosts[i].StartReplica(members, false, cluster.Regular, cfg); err != nil {
+			r.Inconclusive(fmt.Sprintf("quiesced-leader-loss case %d: %v", caseNo, err))
+			return
+		}
+	}
+	if !waitFor(15*time.Second, func() bool { return c.SelfLeader(shardID, replicas) >= 0 }) {
+		r.Inconclusive(fmt.Sprintf("quiesced-leader-loss case %d: no first leader", caseNo))
+		return
+	}
+	for i := 0; i < 5; i++ {
+		if li := c.SelfLeader(shardID, replicas); li >= 0 {
+			ctx, cancel := context.WithTimeout(context.Background(), time.Second)
+			nh := c.Hosts[li].NodeHost()
+			_, _ = nh.SyncPropose(ctx, nh.GetNoOPSession(shardID), cluster.MakeCmd(0, cluster.NewID()))
+			cancel()
+		}
+	}
+	li := c.SelfLeader(shardID, replicas)
+	if li < 0 {
+		r.Inconclusive(fmt.Sprintf("quiesced-leader-loss case %d: leader lost before the idle period", caseNo))
+		return
+	}
+	// idle: 10 election timeouts without activity make every replica quiescent (1 s at these settings)
+	idle := time.Duration(1500+rng.Intn(1500)) * time.Millisecond
+	time.Sleep(idle)
+	c.Hosts[li].Crash()
+	time.Sleep(time.Duration(rng.Intn(300)) * time.Millisecond)
+	via := (li + 1 + rng.Intn(2)) % 3
+	rep := uint64(via + 1)
+	t0 := clock.get(rep)
+	wall := time.Now()
+	var outcomes []string
+	completed := false
+	attempts := 0
+	for clock.get(rep)-t0 < 3000 && time.Since(wall) < 180*time.Second && !completed {
+		nh := c.Hosts[via].NodeHost()
+		if nh == nil {
+			break
+		}
+		attempts++
+		var rs *dragonboat.RequestState
+		var err error
+		if onlyProposals || attempts%2 == 1 {
+			rs, err = nh.Propose(nh.GetNoOPSession(shardID), cluster.MakeCmd(1, cluster.NewID()), 300*10*time.Millisecond)
+		} else {
+			rs, err = nh.ReadIndex(shardID, 300*10*time.Millisecond)
+		}
+		if err == nil {
+			select {
+			case res := <-rs.ResultC():
+				completed = res.Completed()
+				outcomes = append(outcomes, fmt.Sprintf("%+v", res))
+			case <-time.After(120 * time.Second):
+				outcomes = append(outcomes, "no result within the watchdog")
+			}
+			rs.Release()
+		} else {
+			outcomes = append(outcomes, err.Error())
+		}
+		if !completed {
+			from := clock.get(rep)
+			for clock.get(rep)-from < 30 && time.Since(wall) < 180*time.Second {
+				time.Sleep(10 * time.Millisecond)
+			}
+		}
+	}
+	switch {
+	case completed:
+		sk.Count("requests_completed_after_quiesced_leader_loss", 1)
+		r.Max("max_ticks_until_completion_after_quiesced_leader_loss", clock.get(rep)-t0)
+	case clock.get(rep)-t0 >= 3000:
+		if len(outcomes) > 10 {
+			outcomes = outcomes[len(outcomes)-10:]
+		}
+		what := "proposals and reads"
+		if onlyProposals {
+			what = "proposals"
+		}
+		sk.Violation("C17", "request-does-not-complete-after-healing:quiesced-shard-lost-its-leader",
+			fmt.Sprintf("the shard went quiescent (%v idle), then the host of its leader lost power; 2 of 3 voters are up and connected; %s submitted through replica %d for %d ticks (deadline 300 ticks each, %d attempts) never completed", idle, what, rep, clock.get(rep)-t0, attempts),
+			map[string]interface{}{"case": caseNo, "config": desc, "idle_ms": idle.Milliseconds(), "last_outcomes": outcomes})
+	default:
+		r.Inconclusive(fmt.Sprintf("quiesced-leader-loss case %d: ticks of replica %d did not advance", caseNo, rep))
+	}
+	r.Case(true, common.Hash("qll", caseNo, desc))
+	if r.WantSample() {
+		r.Sample(map[string]interface{}{"quiesced_leader_loss_case": caseNo, "config": desc, "completed": completed, "attempts": attempts})
 	}
 }
